@@ -1127,6 +1127,228 @@ def gen_sim_deep(rng, tier, d=1):
     thr = 0.0 if rng.random() < 0.7 else float(rng.choice([1e-30, 1e-20]))      # deep coverage: tiny thresholds still send many entries to the simulator
     return dict(pops=pops, thr=thr, nsim=int({1: 2000, 2: 1000}[d]), sim_seed=int(rng.integers(1, 2 ** 31)), data=data, mask=None, model_kind=mk, Fx_none=False, deep=True)
 
+# --------------------------------------------------------------------------- the simulator as a function of its random draws
+class _Fwd:
+    """forwards every attribute to the wrapped object except the ones overridden"""
+    def __init__(self, obj, **over):
+        self.__dict__['_obj'] = obj; self.__dict__['_over'] = over
+    def __getattr__(self, k):
+        o = self.__dict__['_over']
+        return o[k] if k in o else getattr(self.__dict__['_obj'], k)
+
+class DrawRecorder:
+    """records every random draw of `simulate_GATK_multisample_calling` (depths: `ss.rv_discrete(...).rvs`, alternative reads of
+    heterozygotes: `ss.binom.rvs`, subsampling permutations: `rng.permuted`) together with the call structure
+    (`simulate_reads` / `subsample_genotypes_1D` boundaries), by wrapping the module globals the simulator looks up."""
+    def __init__(self, LP):
+        self.LP = LP; self.ev = []; self.saved = {}
+    def __enter__(self):
+        LP = self.LP; ev = self.ev
+        for k in ('ss', 'rng', 'simulate_reads', 'subsample_genotypes_1D'):
+            self.saved[k] = getattr(LP, k)
+        ss0, rng0, sr0, sub0 = self.saved['ss'], self.saved['rng'], self.saved['simulate_reads'], self.saved['subsample_genotypes_1D']
+        def rv_discrete(*a, **k):
+            d = ss0.rv_discrete(*a, **k)
+            vals = k.get('values')
+            def rvs(*a2, **k2):
+                r = d.rvs(*a2, **k2); ev.append(('depths', np.array(r), None if vals is None else [np.array(v) for v in vals])); return r
+            return _Fwd(d, rvs=rvs)
+        def binom_rvs(n, pr, *a, **k):
+            r = ss0.binom.rvs(n, pr, *a, **k); ev.append(('binom', np.array(n), float(pr), np.array(r))); return r
+        def permuted(x, *a, **k):
+            r = rng0.permuted(x, *a, **k); ev.append(('permuted', np.array(x), np.array(r), k.get('axis', a[0] if a else None))); return r
+        def simulate_reads(cov, part, popn, n, *a, **k):
+            ev.append(('reads', [int(v) for v in part], [int(v) for v in popn], int(n)))
+            r = sr0(cov, part, popn, n, *a, **k); ev.append(('reads-end', np.array(r[0]), np.array(r[1]))); return r
+        def subsample(g, n, *a, **k):
+            ev.append(('sub', int(n), np.array(g))); r = sub0(g, n, *a, **k); ev.append(('sub-end', np.array(r))); return r
+        LP.ss = _Fwd(ss0, rv_discrete=rv_discrete, binom=_Fwd(ss0.binom, rvs=binom_rvs))
+        LP.rng = _Fwd(rng0, permuted=permuted)
+        LP.simulate_reads = simulate_reads; LP.subsample_genotypes_1D = subsample
+        return self
+    def __exit__(self, *exc):
+        for k, v in self.saved.items():
+            setattr(self.LP, k, v)
+        return False
+
+class DrawStructure(Exception):
+    pass
+
+def blocks_from_events(ev, nseq, nsub):
+    """the recorded events of ONE call of simulate_GATK_multisample_calling -> list of blocks
+    dict(part, n, depth (n x inds), draw (n x inds), sels {pop: [selection, ...]}); raises DrawStructure when the calls do not
+    have the expected structure (one depth draw per population, one binomial draw for the heterozygotes, then per subsampled
+    population one subsample_genotypes_1D call made of permutations of the sorted called genotypes)"""
+    d = len(nseq); ninds = [n // 2 for n in nseq]
+    blocks = []; i = 0
+    while i < len(ev):
+        e = ev[i]
+        if e[0] != 'reads':
+            raise DrawStructure('expected a simulate_reads call, saw %s' % e[0])
+        part, popn, n = e[1], e[2], e[3]
+        if popn != ninds or len(part) != sum(ninds):
+            raise DrawStructure('simulate_reads called with partition of length %d for individuals %r' % (len(part), popn))
+        i += 1
+        deps = []
+        for p in range(d):
+            if i >= len(ev) or ev[i][0] != 'depths' or ev[i][1].shape != (n, ninds[p]):
+                raise DrawStructure('depth draw of population %d' % p)
+            deps.append(ev[i]); i += 1
+        depth = np.hstack([x[1] for x in deps]).astype(int) if deps else np.zeros((n, 0), int)
+        het = np.array(part) == 1
+        if i >= len(ev) or ev[i][0] != 'binom' or ev[i][1].shape != (n, int(het.sum())) or not np.array_equal(ev[i][1], depth[:, het]) or ev[i][3].size != n * int(het.sum()):
+            raise DrawStructure('binomial draw for the heterozygotes')
+        draw = np.zeros_like(depth); draw[:, het] = np.asarray(ev[i][3]).reshape(n, int(het.sum())); hetp = ev[i][2]; i += 1     # scipy squeezes a (1, k) draw to (k,)
+        if i >= len(ev) or ev[i][0] != 'reads-end':
+            raise DrawStructure('unexpected draw inside simulate_reads: %s' % (ev[i][0] if i < len(ev) else 'end'))
+        nref, nalt = ev[i][1], ev[i][2]; i += 1
+        blk = dict(part=part, n=n, depth=depth, draw=draw, hetp=hetp, values=[x[2] for x in deps], nref=nref, nalt=nalt, sels={})
+        subs = [p for p in range(d) if nsub[p] != nseq[p]]
+        k = 0
+        while i < len(ev) and ev[i][0] == 'sub':
+            if k >= len(subs):
+                raise DrawStructure('more subsample_genotypes_1D calls than subsampled populations')
+            p = subs[k]; k += 1
+            if ev[i][1] != nsub[p]:
+                raise DrawStructure('subsample_genotypes_1D called with n_subsampling=%r for population %d (nsub %d)' % (ev[i][1], p, nsub[p]))
+            i += 1
+            sels = []
+            while i < len(ev) and ev[i][0] == 'permuted':
+                _, a, b, axis = ev[i]; i += 1
+                if a.shape != b.shape or a.ndim != 2 or axis != 1:
+                    raise DrawStructure('rng.permuted shapes / axis')
+                m = nsub[p] // 2
+                for ra, rb in zip(a.tolist(), b.tolist()):
+                    if sorted(ra) != sorted(rb) or ra != sorted(ra):
+                        raise DrawStructure('rng.permuted is not applied to sorted rows / does not return a permutation')
+                    used = set(); sel = []
+                    for v in rb[:m]:
+                        j = next((t for t in range(len(ra)) if ra[t] == v and t not in used), None)
+                        used.add(j); sel.append(j)
+                    sels.append(sel)
+            if i >= len(ev) or ev[i][0] != 'sub-end':
+                raise DrawStructure('unexpected draw inside subsample_genotypes_1D')
+            i += 1
+            blk['sels'][p] = sels
+        blocks.append(blk)
+    return blocks
+
+def fmt_blocks(blocks, d):
+    out = []
+    for b in blocks:
+        loci = []
+        for r in range(b['n']):
+            pops = []
+            for p in range(d):
+                lo, hi = b['bounds'][p], b['bounds'][p + 1]
+                pops.append(','.join('%d:%d' % (int(b['depth'][r, t]), int(b['draw'][r, t])) for t in range(lo, hi)))
+            loci.append('/'.join(pops))
+        sels = '/'.join((','.join('.'.join(str(int(t)) for t in sel) for sel in b['sels'][p]) if b['sels'].get(p) else '-') for p in range(d))
+        out.append((';'.join(loci) if loci else '-') + '#' + sels)
+    return '|'.join(out)
+
+def check_simtable(chk, ctx, sc):
+    """ONE call of simulate_GATK_multisample_calling with every random draw recorded.  L3 (from the recorded draws only): the table
+    is a probability table whose entries are multiples of 1/(number of simulated loci) — every locus is counted exactly once —
+    and entry 0…0 holds at least the loci with fewer than two alternative reads; the reads follow from genotype, depth and the
+    heterozygote draw.  K: the Lean model `simTable` fed the same draws must give the same table exactly; the number of loci
+    per aggregate partition must be int(nsim * probability); the draws must be possible (`drawsFit`)."""
+    LP = fresh_LP(ctx)
+    pops = sc['pops']; d = len(pops)
+    af = [int(a) for a in sc['af']]; nsim = int(sc['nsim'])
+    nseq = [p['nseq'] for p in pops]; nsub = [p['nsub'] for p in pops]; Fs = [p['F'] for p in pops]
+    inp = dict(kind='simtable', pops=pops, af=af, nsim=nsim, seed=int(sc['seed']))
+    cov = {'p%d' % i: covarr(p['cov']) for i, p in enumerate(pops)}
+    np.random.seed(int(sc['seed']) % (2 ** 32)); LP.rng = np.random.default_rng(int(sc['seed']))
+    try:
+        with warnings.catch_warnings():
+            warnings.simplefilter('ignore')
+            with DrawRecorder(LP) as rec:
+                tab = np.asarray(LP.simulate_GATK_multisample_calling(cov, tuple(af), nseq, nsub, nsim, Fs), dtype=float)
+    except Exception as e:
+        chk.fail('simulate_GATK_multisample_calling:raises:%s' % type(e).__name__, 'simulate_GATK_multisample_calling(af=%r, nseq=%r, nsub=%r, nsim=%d, Fx=%r) raises %r' % (af, nseq, nsub, nsim, Fs, e), inp)
+        return
+    finally:
+        fresh_LP(ctx)
+    chk.l3(('simtable', d, tuple(a == b for a, b in zip(nseq, nsub)), any(F > 0 for F in Fs), sum(af) == 0, nsim))
+    chk.stat('simtable_%dpop' % d)
+    shape = tuple(n + 1 for n in nsub)
+    try:
+        blocks = blocks_from_events(rec.ev, nseq, nsub)
+    except DrawStructure as e:
+        if have_driver(ctx):
+            chk.k_bad('simtable:structure', inp, 'recorded draws', str(e), None)
+        blocks = None
+    ntot = None if blocks is None else int(sum(b['n'] for b in blocks))
+    if tab.shape != shape:
+        chk.fail('simulate_GATK_multisample_calling:closure', 'simulated table has shape %r, expected %r' % (tab.shape, shape), inp); return
+    if ntot == 0:
+        return                                     # nothing simulated (nsim * probability < 1 for every partition): 0/0, outside the generator's range
+    if not np.all(np.isfinite(tab)) or tab.min() < 0 or abs(tab.sum() - 1) > 1e-9:
+        chk.fail('simulate_GATK_multisample_calling:closure', 'simulated output for allele counts %r: min %r, total %r (not a probability table)' % (af, float(np.nanmin(tab)), float(np.nansum(tab))), inp); return
+    if blocks is None:
+        return
+    bounds = [0] + [int(v) for v in np.cumsum([n // 2 for n in nseq])]
+    for b in blocks: b['bounds'] = bounds
+    # L3: the table counts each simulated locus once
+    cnt = tab * ntot
+    if np.max(np.abs(cnt - np.round(cnt))) > 1e-6:
+        chk.fail('simulate_GATK_multisample_calling:locus-count', 'allele counts %r: %d loci were simulated but the table is not made of multiples of 1/%d '
+                 '(a locus is lost or counted twice)' % (af, ntot, ntot), inp); return
+    # L3: reads from genotype / depth / draw, loci without two alternative reads are "not called"
+    low = 0
+    for b in blocks:
+        g = np.array(b['part'], dtype=int)[None, :]
+        ex_alt = np.where(g == 2, b['depth'], np.where(g == 1, b['draw'], 0)); ex_ref = np.where(g == 0, b['depth'], np.where(g == 1, b['depth'] - b['draw'], 0))
+        if b['n'] and (not np.array_equal(ex_alt, b['nalt']) or not np.array_equal(ex_ref, b['nref'])):
+            chk.fail('simulate_reads:reads', 'genotypes %r: the reads are not (depth, 0) / (depth - alt, alt) / (0, depth) for genotypes 0 / 1 / 2' % (b['part'],), inp); return
+        if b['n'] and (np.any(b['draw'] > b['depth']) or abs(b['hetp'] - 0.5) > 0):
+            chk.fail('simulate_reads:het-draw', 'a heterozygote has more alternative reads than depth, or the reads of a heterozygote are not drawn with probability 1/2', inp); return
+        for p in range(d):
+            c = pops[p]['cov']; dp = b['depth'][:, bounds[p]:bounds[p + 1]]
+            if dp.size and (dp.min() < 0 or dp.max() >= len(c) or np.any(np.array(c)[dp] == 0)):
+                chk.fail('simulate_reads:depth-support', 'population %d: a sampled depth has probability 0 in its coverage distribution' % p, inp); return
+        low += int(np.sum(ex_alt.sum(axis=1) < 2))
+    if cnt.flat[0] < low - 1e-6:
+        chk.fail('simulate_GATK_multisample_calling:bin0', 'allele counts %r: %d loci have fewer than two alternative reads, entry 0 holds only %.1f' % (af, low, float(cnt.flat[0])), inp); return
+    if not have_driver(ctx) or any(0 < F < TINY_F for F in Fs):
+        return
+    popstr = ';'.join('%s@%d@%d@%s' % (fmt_list(p['cov']), p['nseq'], p['nsub'], rat(p['F'])) for p in pops)
+    o = ctx['driver'].ask('lp_simtable %s %s %d %s' % (popstr, '.'.join(map(str, af)), nsim, fmt_blocks(blocks, d)))
+    if not o.startswith('ok '):
+        chk.k_bad('simtable', inp, tab, o[:300], None); return
+    t, counts, fit = o[3:].split('|')
+    ok, err, _ = close(tab, parse_ndf(t), rtol=1e-12, atol=1e-12)
+    chk.k_ok('simtable') if ok else chk.k_bad('simtable', inp, tab, t[:300], err)
+    chk.k_ok('simfit') if fit == '1' else chk.k_bad('simfit', inp, 'possible draws', 'drawsFit = %s' % fit, None)
+    mc = [int(v) for v in counts.split(',')]
+    # the float product nsim * p may sit within round-off of an integer: tolerate a difference of one locus there
+    probs = [1.0]
+    for p_, a_ in zip(pops, af):
+        pr = LP.partitions_and_probabilities(p_['nseq'], 'allele_frequency', p_['F'], a_)[1]
+        probs = [x * float(y) for x in probs for y in pr]
+    got = [b['n'] for b in blocks]
+    border = [abs(nsim * q - round(nsim * q)) < 1e-9 for q in probs] if len(probs) == len(got) else [False] * len(got)
+    if len(mc) == len(got) and all(a == b or (bd and abs(a - b) <= 1) for a, b, bd in zip(mc, got, border)):
+        chk.k_ok('simcount')
+    else:
+        chk.k_bad('simcount', inp, got, mc, None)
+
+def gen_simtable(rng, tier):
+    d = int(rng.choice([1, 1, 2, 2, 3]))
+    hi = {1: 10, 2: 6, 3: 4}[d]
+    pops = []
+    for _ in range(d):
+        nseq, nsub = gen_sizes(rng, hi)
+        kind = ['poisson', 'poisson', 'geometric', 'two-point', 'mostly-zero', 'depth1-only', 'uniform', 'no-zero-depth', 'deep'][int(rng.integers(9))]
+        c, ck = gen_cov(rng, kind)
+        F = 0.0 if rng.random() < 0.5 else float(rng.choice([51, 205, 512, 922])) / 1024.0
+        pops.append(dict(cov=c, cov_kind=ck, nseq=nseq, nsub=nsub, F=F))
+    af = [int(rng.integers(0, p['nseq'] + 1)) for p in pops]
+    if rng.random() < 0.6:
+        af = [max(1, min(p['nseq'] - 1, a)) if p['nseq'] > 2 else a for p, a in zip(pops, af)]       # mostly polymorphic
+    return dict(pops=pops, af=af, nsim=int(rng.choice([30, 100, 300])), seed=int(rng.integers(1, 2 ** 31)))
+
 # --------------------------------------------------------------------------- several low-pass functions in one process
 CHILD = ("import sys, json\nsys.path[:0] = [%r, %r, %r]\nimport warnings; warnings.filterwarnings('ignore')\nimport logging; logging.disable(logging.WARNING)\n"
          "from harness import c18\nc18._child()\n")
@@ -1502,6 +1724,9 @@ def run(chk, ctx):
         check_subsample(chk, ctx, gen_subsample(rng, tier))
     for it in range(8 if quick else 40):
         check_sim_deep(chk, ctx, gen_sim_deep(rng, tier, d=1 if it % 4 else 2))
+    # ---- the simulator as a function of its recorded random draws (K: the model's simTable on the same draws, exactly)
+    for it in range(40 if quick else 300):
+        check_simtable(chk, ctx, gen_simtable(rng, tier))
     # ---- several low-pass functions in one process (same population names): history independence
     nh = 40 if quick else 220
     for it in range(nh):
@@ -1543,6 +1768,8 @@ def replay(chk, ctx, data):
         check_sim_deep(chk, ctx, case_from_json(inp))
     elif kind == 'subsample':
         check_subsample(chk, ctx, inp)
+    elif kind == 'simtable':
+        check_simtable(chk, ctx, inp)
     elif kind == 'axis-dev':
         check_axis_dev(chk, ctx, [float(v) for v in inp['cov']], int(inp['nseq']), int(inp['nsub']), float(inp['F']))
     elif kind == 'defined':
